@@ -5,6 +5,8 @@ package pebble
 // Machine-checked contracts for /verif (read as text by the VC generator; no code).
 //
 // allff(p, n): the first n bytes of p are 0xff
+//@ // gSrc[j]: index (in the read history gPebRd*) of the batch record that caused the j-th writer call of a replay
+//@ ghost gSrc[int] int
 //@ spec allff(p []byte, n int) bool = forall(j, 0, n, p[j] == 255)
 //@ // bytesPrefix: the lower bound is the prefix itself; the upper bound is the prefix with its last non-0xff byte
 //@ // incremented and everything after it cut off (the least byte string above every string with this prefix), or nil
@@ -27,3 +29,72 @@ package pebble
 //@   ensures  [upper] result != nil && prefix != nil && !allff(prefix, len(prefix)) ==> result.UpperBound != nil && len(result.UpperBound) >= 1 && len(result.UpperBound) <= len(prefix) &&
 //@            result.UpperBound[len(result.UpperBound) - 1] == prefix[len(result.UpperBound) - 1] + 1 &&
 //@            forall(j, 0, len(result.UpperBound) - 1, result.UpperBound[j] == prefix[j]) && forall(j, len(result.UpperBound), len(prefix), prefix[j] == 255)
+//@
+//@ // ---- iterator: the engine wants First() instead of the first Next(); Release closes the engine iterator once ----
+//@ func (*iterator).Next
+//@   requires it != nil
+//@   modifies it.isStarted, gPebItNextN, gPebItFirstN, gPebItRecv, gPebItR0
+//@   ensures  [first] !old(it.isStarted) ==> gPebItFirstN == old(gPebItFirstN) + 1 && gPebItNextN == old(gPebItNextN) && gPebItRecv == it.Iterator && result == gPebItR0
+//@   ensures  [later] old(it.isStarted) ==> gPebItNextN == old(gPebItNextN) + 1 && gPebItFirstN == old(gPebItFirstN) && gPebItRecv == it.Iterator && result == gPebItR0
+//@   ensures  it.isStarted
+//@ func (*iterator).Release
+//@   requires it != nil
+//@   modifies it.isClosed, gPebItCloseN, gPebItRecv
+//@   ensures  it.isClosed && gPebItCloseN == old(gPebItCloseN) + ite(old(it.isClosed), 0, 1)
+//@
+//@ // ---- reads: a missing key is (nil, nil) / false; a present key yields a copy that is never nil (an empty value is
+//@ // distinct from an absent key); the closer handed out by the engine is closed ----
+//@ func (*Database).Get
+//@   requires db != nil && pebble.ErrNotFound != nil
+//@   modifies gPebGetN, gPebGetKey, gPebGetVal, gPebGetCloser, gPebGetErr, gCloserCloseN, gCloserCloseRecv, gCloserCloseR0
+//@   ensures  [asked] gPebGetN == old(gPebGetN) + 1 && gPebGetKey == key
+//@   ensures  [missing] gPebGetErr == pebble.ErrNotFound ==> result0 == nil && result1 == nil
+//@   ensures  [failed] gPebGetErr != nil && gPebGetErr != pebble.ErrNotFound ==> result0 == nil && result1 == gPebGetErr
+//@   ensures  [found] gPebGetErr == nil ==> result0 != nil && fresh(result0) && len(result0) == len(gPebGetVal) && forall(j, 0, len(result0), result0[j] == gPebGetVal[j]) && gCloserCloseN == old(gCloserCloseN) + 1 && gCloserCloseRecv == gPebGetCloser && result1 == gCloserCloseR0
+//@ func (*Database).Has
+//@   requires db != nil && pebble.ErrNotFound != nil
+//@   modifies gPebGetN, gPebGetKey, gPebGetVal, gPebGetCloser, gPebGetErr, gCloserCloseN, gCloserCloseRecv, gCloserCloseR0
+//@   ensures  [asked] gPebGetN == old(gPebGetN) + 1 && gPebGetKey == key
+//@   ensures  [missing] gPebGetErr == pebble.ErrNotFound ==> !result0 && result1 == nil
+//@   ensures  [failed] gPebGetErr != nil && gPebGetErr != pebble.ErrNotFound ==> !result0 && result1 == gPebGetErr
+//@   ensures  [found] gPebGetErr == nil ==> result0 && gCloserCloseN == old(gCloserCloseN) + 1 && gCloserCloseRecv == gPebGetCloser && result1 == gCloserCloseR0
+//@
+//@ // ---- batch ----
+//@ func (*batch).Put
+//@   requires b != nil
+//@   modifies b.size, gPebSetN, gPebSetRecv, gPebSetKey, gPebSetVal, gPebSetR0
+//@   ensures  gPebSetN == old(gPebSetN) + 1 && gPebSetRecv == b.b && gPebSetKey == key && gPebSetVal == value && result == gPebSetR0
+//@ func (*batch).Delete
+//@   requires b != nil
+//@   modifies b.size, gPebDelN, gPebDelRecv, gPebDelKey, gPebDelR0
+//@   ensures  gPebDelN == old(gPebDelN) + 1 && gPebDelRecv == b.b && gPebDelKey == key && result == gPebDelR0
+//@ func (*batch).ValueSize
+//@   requires b != nil
+//@   ensures  result == b.size
+//@ func (*batch).Reset
+//@   requires b != nil
+//@   modifies b.size, gPebResetN
+//@   ensures  b.size == 0 && gPebResetN == old(gPebResetN) + 1
+//@
+//@ // Replay reads the batch records in order and hands every set to w.Put(key, value) and every delete to w.Delete(key),
+//@ // in record order, one writer call per such record, and stops at the first error (which it returns) or at the first
+//@ // record that cannot be read. Kinds: 1 = InternalKeyKindSet, 0 = InternalKeyKindDelete.
+//@ func (*batch).Replay
+//@   requires b != nil && w != nil
+//@   modifies gPebRdN, gPebRdKind[*], gPebRdKey[*], gPebRdVal[*], gPebRdOk[*], gSrc[*], gKeyValueWriterPutN, gKeyValueWriterPutRecv, gKeyValueWriterPutA0, gKeyValueWriterPutA1, gKeyValueWriterPutR0, gKeyValueWriterDeleteN, gKeyValueWriterDeleteRecv, gKeyValueWriterDeleteA0, gKeyValueWriterDeleteR0, gWrOpN, gWrOpKind[*], gWrOpRecv[*], gWrOpKey[*], gWrOpVal[*], gWrOpErr[*]
+//@   at call KeyValueWriter.Put[1] ghost gSrc[gWrOpN - 1] = gPebRdN - 1 after
+//@   at call KeyValueWriter.Delete[1] ghost gSrc[gWrOpN - 1] = gPebRdN - 1 after
+//@   ensures  [counts] gWrOpN >= old(gWrOpN) && gPebRdN >= old(gPebRdN) && gWrOpN - old(gWrOpN) <= gPebRdN - old(gPebRdN)
+//@   ensures  [ops] forall(j, old(gWrOpN), gWrOpN, old(gPebRdN) <= gSrc[j] && gSrc[j] < gPebRdN && gPebRdOk[gSrc[j]] && gWrOpRecv[j] == w && gWrOpKey[j] == gPebRdKey[gSrc[j]] &&
+//@              ((gPebRdKind[gSrc[j]] == 1 && gWrOpKind[j] == 1 && gWrOpVal[j] == gPebRdVal[gSrc[j]]) || (gPebRdKind[gSrc[j]] == 0 && gWrOpKind[j] == 2)))
+//@   ensures  [order] forall(j, old(gWrOpN) + 1, gWrOpN, gSrc[j - 1] < gSrc[j])
+//@   ensures  [complete] forall(i, old(gPebRdN), gPebRdN, gPebRdOk[i] && (gPebRdKind[i] == 1 || gPebRdKind[i] == 0) ==> exists(j, old(gWrOpN), gWrOpN, gSrc[j] == i))
+//@   ensures  [noerr] forall(j, old(gWrOpN), gWrOpN - 1, gWrOpErr[j] == nil)
+//@   ensures  [result] result == ite(gWrOpN > old(gWrOpN), gWrOpErr[gWrOpN - 1], nil)
+//@   loop 1 modifies iter, gPebRdN, gPebRdKind[*], gPebRdKey[*], gPebRdVal[*], gPebRdOk[*], gSrc[*], gKeyValueWriterPutN, gKeyValueWriterPutRecv, gKeyValueWriterPutA0, gKeyValueWriterPutA1, gKeyValueWriterPutR0, gKeyValueWriterDeleteN, gKeyValueWriterDeleteRecv, gKeyValueWriterDeleteA0, gKeyValueWriterDeleteR0, gWrOpN, gWrOpKind[*], gWrOpRecv[*], gWrOpKey[*], gWrOpVal[*], gWrOpErr[*]
+//@   loop 1 invariant gWrOpN >= old(gWrOpN) && gPebRdN >= old(gPebRdN) && gWrOpN - old(gWrOpN) <= gPebRdN - old(gPebRdN)
+//@   loop 1 invariant forall(j, old(gWrOpN), gWrOpN, old(gPebRdN) <= gSrc[j] && gSrc[j] < gPebRdN && gPebRdOk[gSrc[j]] && gWrOpRecv[j] == w && gWrOpKey[j] == gPebRdKey[gSrc[j]] &&
+//@              ((gPebRdKind[gSrc[j]] == 1 && gWrOpKind[j] == 1 && gWrOpVal[j] == gPebRdVal[gSrc[j]]) || (gPebRdKind[gSrc[j]] == 0 && gWrOpKind[j] == 2)))
+//@   loop 1 invariant forall(j, old(gWrOpN) + 1, gWrOpN, gSrc[j - 1] < gSrc[j])
+//@   loop 1 invariant forall(i, old(gPebRdN), gPebRdN, gPebRdOk[i] && (gPebRdKind[i] == 1 || gPebRdKind[i] == 0) ==> exists(j, old(gWrOpN), gWrOpN, gSrc[j] == i))
+//@   loop 1 invariant forall(j, old(gWrOpN), gWrOpN, gWrOpErr[j] == nil) && err == nil
